@@ -305,6 +305,57 @@ async fn client_case(seed: u64, n: u64) -> Evidence {
     ev
 }
 
+/// A peer that pipelines thousands of requests and starts reading late, through a small receive
+/// window: the server's socket fills up while it writes replies. Every request must still be
+/// answered, in order, once the peer reads - nothing may stay behind in a buffer of the TLS layer.
+pub async fn backlog_case(seed: u64, n: u64) -> Evidence {
+    let mut ev = Evidence::new();
+    let mut rng = Rng::sub(seed, 5503, n);
+    // (what it takes for the server's socket to be full when the last replies are written: more
+    // data than the socket buffers hold, a small window, a reader slower than the server)
+    // (45 000 requests through a 16 KiB window left the tail behind in three of four sessions on the
+    // tree before the repair; other sizes did so rarely: half of the sessions use that point)
+    let (requests, rcvbuf) = if n % 2 == 0 { (45_000u64, 16_384u64) } else { ([43_000u64, 47_000, 50_000, 60_000][rng.below(4) as usize], [8_192u64, 12_288, 16_384][rng.below(3) as usize]) };
+    let min13 = rng.chance(1, 2);
+    // a reader slower than the server keeps the server's socket full until the very last reply
+    let throttle = [2u64, 4, 6][((n / 2) % 3) as usize];
+    let srv = match start_tls_server(false, min13, false, server::AddressFilter::Any).await {
+        Ok(x) => x,
+        Err(e) => {
+            ev.inconclusive(format!("c01tls backlog: server: {e}"));
+            return ev;
+        }
+    };
+    let args = vec![
+        s("client"), s("--port"), srv.addr.port().to_string(),
+        s("--ca"), fixture("ca1.cert.pem").display().to_string(),
+        s("--cert"), fixture("client_operator.cert.pem").display().to_string(),
+        s("--key"), fixture("client_operator.key.pem").display().to_string(),
+        s("--servername"), s("test.server"),
+        s("--flood"), requests.to_string(), s("--rcvbuf"), rcvbuf.to_string(), s("--read-delay"), s("1.0"), s("--wait"), s("4"), s("--read-throttle-ms"), throttle.to_string(),
+    ];
+    let res = run_peer(args).await;
+    drop(srv.handle);
+    let _ = tokio::time::timeout(Duration::from_secs(5), srv.task).await;
+    let f = &res["flood"];
+    if f.is_null() {
+        ev.inconclusive(format!("c01tls backlog: the peer did not report: {}", res["error"]));
+        return ev;
+    }
+    ev.eval();
+    ev.count("tls_backlog_sessions", 1);
+    ev.count("tls_backlog_replies_read", f["replies"].as_u64().unwrap_or(0));
+    ev.class(format!("tls_backlog|requests={requests}|rcvbuf={rcvbuf}|min13={min13}|throttle={throttle}ms|{}", f["read_end"].as_str().unwrap_or("?")));
+    if f["replies"].as_u64() != Some(requests) || f["in_order"].as_bool() != Some(true) {
+        ev.violation(
+            format!("tls_server:backlog:replies_missing_or_out_of_order:{}", f["read_end"].as_str().unwrap_or("?").split(':').next().unwrap_or("?")),
+            format!("a TLS peer pipelined {requests} requests (receive buffer {rcvbuf}) and started reading 1 s later: {} complete replies arrived (in order: {}), {} bytes of a further reply, reading ended with {} after 4 s of silence", f["replies"], f["in_order"], f["partial_tail"], f["read_end"]),
+            json!({"leg": "c01tls", "backlog": n, "requests": requests, "rcvbuf": rcvbuf, "min13": min13, "throttle_ms": throttle}),
+        );
+    }
+    ev
+}
+
 pub async fn run(seed: u64, server_cases: u64, client_cases: u64) -> Evidence {
     let mut ev = Evidence::new();
     let mut i = 0;
